@@ -215,8 +215,10 @@ class Ctx:
         return res
 
     # ------------------------------------------------------------- verdicts
-    def fail(self, signature, what, replay):
-        self.failures.append({"signature": signature, "what": what, "replay": replay})
+    def fail(self, signature, what, replay, key=None):
+        """Record a violation observed on the real code. key (optional) identifies the specific input:
+        a known-finding entry that lists keys only covers those inputs."""
+        self.failures.append({"signature": signature, "what": what, "replay": replay, "key": key})
 
     def finish(self, level, coverage, assumptions=None):
         return finish(self, level, coverage, assumptions or [])
@@ -286,13 +288,30 @@ def finish(ctx, level, coverage, assumptions):
         by_sig.setdefault(f["signature"], []).append(f)
     violations = 0
     printed_known = []
+    if os.environ.get("VERIF_DUMP_FAILS"):
+        # maintenance aid (never used by registered commands): dump every (signature, key) observed
+        with open(os.environ["VERIF_DUMP_FAILS"], "a") as df:
+            for f in ctx.failures:
+                df.write(json.dumps({"signature": f["signature"], "key": f.get("key"), "what": f["what"]}) + "\n")
     os.makedirs(os.path.join(VERIF, "replays"), exist_ok=True)
     for sig, fs in sorted(by_sig.items()):
         if sig in known_sigs:
-            print("KNOWN-FINDING: property=%s %s [%s] (%d occurrence(s) in this run)" % (
-                ctx.pid, known_sigs[sig]["what"], sig, len(fs)))
-            printed_known.append(sig)
-            continue
+            k = known_sigs[sig]
+            keys = None
+            if k.get("keys_file"):
+                keys = set(json.load(open(os.path.join(VERIF, k["keys_file"]))).get(sig, []))
+            elif k.get("keys") is not None:
+                keys = set(k["keys"])
+            covered = [f for f in fs if keys is None or f.get("key") in keys]
+            if covered:
+                print("KNOWN-FINDING: property=%s %s [%s] (%d occurrence(s) in this run)" % (
+                    ctx.pid, k["what"], sig, len(covered)))
+                printed_known.append(sig)
+            fs = [f for f in fs if not (keys is None or f.get("key") in keys)]
+            if not fs:
+                continue
+            # same class of failure on an input the finding does not list: a different violation
+            sig = sig + " (input not among the listed ones: %s)" % fs[0].get("key")
         violations += 1
         h = hashlib.sha1(sig.encode()).hexdigest()[:10]
         rp = os.path.join(VERIF, "replays", "%s-%s.json" % (ctx.pid, h))
